@@ -1,6 +1,7 @@
 import Mdsort.Model.Decode
 import Mdsort.Spec.Decode
 import Mdsort.Proofs.Decode
+import Mdsort.Proofs.L0Buffer
 
 /-!
 # C16 - the transfer decoders are correct and total
@@ -49,6 +50,21 @@ theorem C16_cstring_view (s : Bytes) :
   · simp [Model.base64Decode, Model.base64DecodeRaw, C16_b64 s (s.length + 1) (Nat.lt_succ_self _)]
   · simp [Model.qpDecode, Model.qpDecodeRaw, C16_qp]
   · simp [Model.rfc2047Decode, C16_rfc2047]
+
+open L0 in
+/-- "None of them reads or writes out of bounds", the output side: the three decoders write their result through
+the libks buffer (`buffer_alloc(strlen(str))` or `buffer_alloc(128)`, `buffer_putc` per byte, `buffer_printf("%s")`
+for a decoded word, `buffer_putc(bf, '\0')`, `buffer_release`).  For every size hint and every sequence of such
+operations no write leaves the object, nothing is dropped, and the released object is a C string reading as the
+bytes appended up to their first NUL.  (The input side - every read of the source string - is
+`C07_L0_decoders_refine`; the buffer itself: `C07_L0_buffer_in_bounds`, `C07_L0_buffer_contents`.) -/
+theorem C16_output_buffer_in_bounds (sizhint : Nat) (ops : List BufOp) :
+    ∃ bf, (LBuf.alloc sizhint).run (ops ++ [.putc 0]) = .ok (bf, List.replicate (ops.length + 1) 0) ∧
+      bf.store.size = bf.cap ∧ bf.len ≤ bf.cap ∧
+      bf.release.1.view 0 = cstr (ops.flatMap BufOp.piece) ∧ bf.release.1.HasNul 0 := by
+  obtain ⟨hwf, _, _, hc0⟩ := LBuf.alloc_wf sizhint
+  obtain ⟨bf, hr, hwf', hv, hn⟩ := LBuf.run_putc0_release ops (LBuf.alloc sizhint) hwf hc0
+  exact ⟨bf, hr, hwf'.size, hwf'.le, hv, hn⟩
 
 /-! Non-vacuity: concrete non-trivial inputs on which the reference decoders decode. -/
 example : Spec.b64 (ofString "aGVs bG8=") = some (ofString "hello") := by decide +kernel
